@@ -1965,7 +1965,7 @@ fn gen_sweep(emit: &mut dyn FnMut(String), rng: &mut Rng) {
         "expr 2 raw 30 conv 0".into(), "expr 1 conv 1".into(), "expr 1 call 2".into(), "expr 1 callref 0 2".into(), "expr 3 conv 0 call 1 callref 0 0".into(),
         "flag 0".into(), "flag 1".into(), "flagp".into(), "uref 2".into(), "uref 0".into(), "uref 1".into(), "iref 0 2".into(), "iref 0 0".into(),
         "irefsup 0".into(), "irefsup 4294967295".into(), "macinfo 7".into(), "macro 9".into(), "sig8 81985529216486895".into(),
-        "strp 0".into(), "strp 1".into(), "strp 2".into(), "strpsup 5".into(), "lstrp 0".into(), "str -".into(), "str 616263".into(),
+        "strp 0".into(), "strp 1".into(), "strp 2".into(), "strp 3".into(), "strpsup 5".into(), "lstrp 0".into(), "str -".into(), "str 616263".into(),
         "enc 255".into(), "dsign 5".into(), "endy 2".into(), "acc 3".into(), "vis 3".into(), "virt 2".into(), "lang 65535".into(), "lang 128".into(),
         "aclass 18446744073709551615".into(), "idcase 3".into(), "cc 255".into(), "inl 3".into(), "ord 1".into(), "file0".into(),
         "file 0".into(), "file 1".into(), "lpref".into(), "rnglist 0 0".into(), "rnglist 1 0".into(), "loclist 0 0".into(),
@@ -1993,12 +1993,12 @@ fn gen_sweep(emit: &mut dyn FnMut(String), rng: &mut Rng) {
                     // root carries the kind; entry 1 carries it and refers forward to 2; 2 is a base type
                     // (moved before 1) that refers back to 1 and to the root
                     emit(fill_offsets(&format!(
-                        "wunit {variant} {e} S 3 666f6f 62 666f6f L 1 6c73 U 1 {version} {fmt} {asz} {lp} R 2 1 5 3 2 9 9 16 4 Q 1 1 7 2 9c 3 E 0 {sib} 2 3 {k} 73 uref 2 A 1 0 46 {sib} 3 3 {k} 73 uref 2 2 {k} A 2 0 36 0 2 73 uref 1 74 uref 0"
+                        "wunit {variant} {e} S 4 666f6f 62 666f6f 7a79 L 1 6c73 U 1 {version} {fmt} {asz} {lp} R 2 1 5 3 2 9 9 16 4 Q 1 1 7 2 9c 3 E 0 {sib} 2 3 {k} 73 uref 2 A 1 0 46 {sib} 3 3 {k} 73 uref 2 2 {k} A 2 0 36 0 2 73 uref 1 74 uref 0"
                     )));
                     if i % 5 == 0 {
                         // nested: the kind sits in a child list before a referenced grandchild
                         emit(fill_offsets(&format!(
-                            "wunit dw {e} S 3 666f6f 62 666f6f L 1 6c73 U 1 {version} {fmt} {asz} {lp} R 2 1 5 3 2 9 9 16 4 Q 1 1 7 2 9c 4 A 1 0 46 1 1 3 {k} A 2 1 52 1 2 3 {k} 73 uref 3 A 3 2 52 0 1 73 uref 1 A 4 0 46 1 1 73 uref 3"
+                            "wunit dw {e} S 4 666f6f 62 666f6f 7a79 L 1 6c73 U 1 {version} {fmt} {asz} {lp} R 2 1 5 3 2 9 9 16 4 Q 1 1 7 2 9c 4 A 1 0 46 1 1 3 {k} A 2 1 52 1 2 3 {k} 73 uref 3 A 3 2 52 0 1 73 uref 1 A 4 0 46 1 1 73 uref 3"
                         )));
                     }
                 }
